@@ -119,6 +119,7 @@ def applyOp (c : IniCfg) (ini : Ini) : Op → Except IniErr Ini
     else .ok { ini with sections := ini.sections.map fun (n, kvs) => if n == s then (n, assocSet kvs (norm k) v) else (n, kvs) }
   | .remove s k =>
     if !hasOption c ini s k then .error .missing
+    else if s == "Variables" then .ok { ini with vars := ini.vars.filter (fun p => p.1 != norm k) }    -- (the default section itself is never removed)
     else
       let secs := ini.sections.map fun (n, kvs) => if n == s then (n, kvs.filter (fun p => p.1 != norm k)) else (n, kvs)
       let ini' := { ini with sections := secs }
